@@ -62,8 +62,56 @@ def replay_gate(pattern, current, target):
     return gate_case(pattern, current, target) is None
 
 
+# (config version, tags): version order and string order of tag and config disagree (digit-count carries, pre-release vs final)
+START_CASES = [
+    ("2.0.10", ["2.0.9"]),
+    ("2.0.9", ["2.0.10"]),
+    ("1.10.0", ["1.9.9", "1.9.10"]),
+    ("1.9.0", ["1.10.0"]),
+    ("0.1.9", ["0.1.10", "0.1.2"]),
+    ("10.0.0", ["9.9.9"]),
+]
+
+
+def start_case(current, tags):
+    """Directed (default scope): the bump starts from the greater of config and newest tag and ends strictly above it."""
+    from shadows.project import plain_scenario, check_scenario
+
+    r = check_scenario(0, sc=plain_scenario(current=current, tags=list(tags) + ["junk", "also-junk"], tag=False))
+    bad = {k: v for k, v in r.items() if k in ("C01", "C09", "_error")}
+    if not bad and r.get("_rc") != 0:
+        bad = {"C01": f"update failed (exit {r.get('_rc')}) on a consistent project"}
+    return f"config {current}, tags {tags}: {bad}" if bad else None
+
+
+def replay_start(current, tags):
+    return start_case(current, tags) is None
+
+
 def run(tier="quick", seed=0):
     out = [run_shadow("C01", tier, seed)]
+    bad_s = []
+    for case in START_CASES:
+        try:
+            r = start_case(*case)
+        except Exception as e:  # noqa
+            r = f"exception {type(e).__name__}: {e}"
+        if r is not None:
+            bad_s.append((case, r))
+    out.append(
+        dict(
+            name="C01.start_version.bump_ends_strictly_above_the_greater_of_config_and_newest_tag",
+            kind="B",
+            verdict="held" if not bad_s else "refuted",
+            cases=len(START_CASES),
+            distinct=len(START_CASES),
+            bound=f"{len(START_CASES)} directed projects whose config version and newest tag order differently as strings and as versions; real CLI, fake git",
+            witness=[dict(case=list(c), problem=r) for c, r in bad_s[:3]],
+            observed=bad_s[0][1] if bad_s else None,
+            sample=[list(c) for c in START_CASES[:2]],
+            python_replay=(dict(module="checks.c01", function="replay_start", args=list(bad_s[0][0])) if bad_s else None),
+        )
+    )
     bad = []
     for case in GATE_CASES:
         try:
